@@ -5,6 +5,7 @@ import MdpaxV.Gen.Code
 import MdpaxV.Model.Batch
 import MdpaxV.Model.Config
 import Mathlib.Tactic.Ring
+import Mathlib.Tactic.IntervalCases
 import Mathlib.Tactic.Linarith
 import Mathlib.Tactic.NormNum
 import Mathlib.Algebra.Order.Ring.Int
@@ -70,5 +71,17 @@ theorem pvalidate_forest_eq (c : ForestCfgV) : Gen.pvalidate_Forest c = validate
 theorem pvalidate_demoor_eq (c : DeMoorCfgV) : Gen.pvalidate_DeMoor c = validateDeMoor c := rfl
 theorem pvalidate_hendrix_eq (c : HendrixCfgV) : Gen.pvalidate_Hendrix c = validateHendrix c := rfl
 theorem pvalidate_mirjalili_eq (c : MirjaliliCfgV) : Gen.pvalidate_Mirjalili c = validateMirjalili c := rfl
+
+/-- **`verbosity_to_loguru_level` as written in /repo = the model's `loguruLevel`**, for every argument -/
+theorem loguruLevel_eq (isInt : Bool) (v : Int) : Gen.loguruLevel isInt v = MdpaxV.loguruLevel isInt v := by
+  unfold Gen.loguruLevel MdpaxV.loguruLevel
+  cases isInt
+  · rfl
+  · by_cases h : v < 0 ∨ v > 4
+    · simp [h]
+    · have h0 : 0 ≤ v := by omega
+      have h4 : v ≤ 4 := by omega
+      simp only [Bool.not_true, Bool.false_eq_true, if_false, if_neg h]
+      interval_cases v <;> simp [levelName]
 
 end MdpaxV.GenTie
